@@ -300,11 +300,174 @@ def r06e(ctx, run):
                   "line's newline and the snippet code slices that line beyond its length (panic instead of a diagnostic)" % (desc, end_pos, start_pos))
 
 
+def r06f(ctx, run):
+    """input_snippet is total: evaluated from its source for every shape of (file length, first line, span, lines after the span) that its
+    arithmetic distinguishes and for every pair of columns a position can have (0 ..= line length: the position of the newline / end of
+    file is a position), no unsigned subtraction goes below zero and no line is sliced beyond its length."""
+    from symint import SymInterp
+    from absint import Obj, Term, Variant, Panic, CannotEstablish
+    fn = ctx.syn.fn("input_snippet", "diagnostics/src/lib.rs")
+    U = "diagnostics::input_snippet"
+
+    class RI(SymInterp):
+        def binop(self, op, l, r, e):
+            if isinstance(l, int) and isinstance(r, int) and not isinstance(l, bool) and not isinstance(r, bool):
+                if op == "-" and l - r < 0:
+                    raise Panic("attempt to subtract with overflow: `%s`" % canon(e))
+            return super().binop(op, l, r, e)
+
+        def eval(self, e, env):
+            k = e["k"]
+            if k == "index" and e["i"].get("k") == "range":
+                b = self.eval(e["e"], env)
+                if isinstance(b, str):
+                    lo = self.eval(e["i"]["lo"], env) if e["i"].get("lo") is not None else 0
+                    hi = self.eval(e["i"]["hi"], env) if e["i"].get("hi") is not None else len(b.encode())
+                    if e["i"].get("incl"):
+                        hi += 1
+                    if not (isinstance(lo, int) and isinstance(hi, int)):
+                        raise CannotEstablish("slice bounds of `%s`" % canon(e))
+                    bb = b.encode()
+                    if lo > hi or hi > len(bb):
+                        raise Panic("slice out of bounds: `%s`" % canon(e))
+                    for x in (lo, hi):
+                        if x < len(bb) and (bb[x] & 0xC0) == 0x80:
+                            raise Panic("slice not on a char boundary: `%s`" % canon(e))
+                    return bb[lo:hi].decode()
+            if k == "cast":
+                return self.eval(e["e"], env)
+            if k == "ref":
+                return self.eval(e["e"], env)
+            return super().eval(e, env)
+
+        def default_method(self, recv, m, args, e):
+            if isinstance(recv, str):
+                if m == "lines":
+                    out = recv.split("\n")
+                    if out and out[-1] == "":
+                        out.pop()
+                    return [x[:-1] if x.endswith("\r") else x for x in out]
+                if m == "repeat":
+                    if not isinstance(args[0], int):
+                        raise CannotEstablish("repeat count")
+                    return recv * args[0]
+                if m == "replace":
+                    return recv.replace(args[0], args[1])
+                if m == "chars":
+                    return list(recv)
+                if m == "len":
+                    return len(recv.encode())
+                if m in ("to_string", "to_owned", "as_str", "into"):
+                    return recv
+                if m == "get":
+                    return None
+            if isinstance(recv, list):
+                if m in ("iter", "into_iter", "collect", "copied", "cloned"):
+                    return recv
+                if m == "enumerate":
+                    return [(i, x) for i, x in enumerate(recv)]
+                if m == "take":
+                    return recv[:args[0]]
+                if m == "skip":
+                    return recv[args[0]:]
+                if m == "count":
+                    return len(recv)
+                if m == "filter":
+                    return [x for x in recv if self.call_closure(args[0], [x])]
+                if m == "push":
+                    recv.append(args[0])
+                    return None
+                if m == "len":
+                    return len(recv)
+            if m in ("max", "min") and isinstance(recv, int) and args and isinstance(args[0], int):
+                return max(recv, args[0]) if m == "max" else min(recv, args[0])
+            if m == "saturating_sub" and isinstance(recv, int):
+                return max(0, recv - args[0])
+            if m == "checked_mul" and isinstance(recv, int):
+                v = recv * args[0]
+                return None if v > 0xFFFFFFFF else v
+            return super().default_method(recv, m, args, e)
+
+    def resolver(path):
+        last = path.rsplit("::", 1)[-1]
+        c = [f for f in ctx.syn.fns_in("diagnostics/src/lib.rs") if f.body is not None and f.qual.rsplit("::", 1)[-1] == last and not f.in_test]
+        return c[0] if len(c) == 1 else None
+
+    def fmt(i, e, env):
+        for a in e.get("a", [])[1:]:
+            i.eval(a, env)
+        return "<fmt>"
+
+    def render(text, sl, sc, el, ec, arrow):
+        it = RI(resolver=resolver, macros={"format": fmt}, funcs={"String::new": lambda i, a: "", "pathdiff::diff_paths": lambda i, a: None,
+                                                                  "std::env::current_dir": lambda i, a: Term("cwd")})
+        it.methods["unwrap"] = lambda i, r, a: r
+        it.methods["unwrap_or_else"] = lambda i, r, a: "file.capy" if r is None else r
+        it.methods["map"] = lambda i, r, a: None if r is None else NotImplemented
+        env = {"filename": "file.capy", "input": text, "start_line": Variant("LineNr", {"0": sl}), "start_col": Variant("ColNr", {"0": sc}),
+               "end_line": Variant("LineNr", {"0": el}), "end_col": Variant("ColNr", {"0": ec}), "lines": [], "severity": Variant("Severity::Error"),
+               "with_colors": False, "missing_arrow": arrow}
+        it.run_fn(fn, env)
+
+    bad = {}
+    n_runs = 0
+
+    def attempt(desc, text, sl, sc, el, ec, arrow=False):
+        nonlocal n_runs
+        n_runs += 1
+        try:
+            render(text, sl, sc, el, ec, arrow)
+        except Panic as p:
+            bad.setdefault(("panic", p.what), desc)
+        except CannotEstablish as c:
+            bad.setdefault(("unknown", str(getattr(c, "what", c))), desc)
+
+    # (1) the line arithmetic: every regime of first line (saturating_sub(2)), span (omission of the middle), lines after the span (clamping by
+    #     the file's length) and number of digits of the last line number
+    for start in (0, 1, 2, 3, 6, 84, 95, 96, 97, 98, 99):
+        for span in range(0, 19):
+            for trailing in (0, 1, 2, 3, 4):
+                n = start + span + 1 + trailing
+                text = "abc\n" * n
+                attempt("a %d-line file, range from line %d to line %d" % (n, start + 1, start + span + 1), text, start, 0, start + span, 0)
+    # (2) the columns: a range starts on a character boundary (the newline's position included) and its inclusive end is the last byte of a
+    #     character, the newline itself, or - for an empty range - the start; on one line, two lines and three lines; with and without the arrow
+    for line in ("abc", "a\u00e9b"):
+        nbytes = len(line.encode())
+        bounds = [i for i in range(nbytes + 1) if i == nbytes or (line.encode()[i] & 0xC0) != 0x80]
+        for nl, (sl, el) in ((1, (0, 0)), (3, (1, 1)), (2, (0, 1)), (3, (0, 2))):
+            text = (line + "\n") * nl
+            for sc in bounds:
+                # non-empty ranges begin and end with a token character (syntax nodes carry no leading/trailing trivia: assumption); an empty range
+                # may sit on the newline / end of file, or before an ASCII character (`)` or white space follow the two producers of empty ranges)
+                ends = {b - 1 for b in bounds if b >= 1 and (sl != el or b > sc)} if sc < nbytes else set()
+                if sl == el and (sc == nbytes or line.encode()[sc] < 0x80):
+                    ends.add(sc)
+                for ec in sorted(ends):
+                    for arrow in (False, True):
+                        attempt("lines `%s`, range from %d:%d to %d:%d (byte columns; column %d is the newline)" % (line, sl + 1, sc, el + 1, ec, nbytes), text, sl, sc, el, ec, arrow)
+    # (3) a file whose last line has no newline, empty lines, a tab
+    for text, sl, sc, el, ec in (("abc", 0, 0, 0, 2), ("abc", 0, 3, 0, 3), ("\n\n\n", 1, 0, 1, 0), ("a\n\n", 1, 0, 1, 0), ("\tab\n", 0, 1, 0, 2), ("", 0, 0, 0, 0)):
+        attempt("text %r, range %d:%d-%d:%d" % (text, sl + 1, sc, el + 1, ec), text, sl, sc, el, ec)
+        attempt("text %r, range %d:%d-%d:%d, arrow" % (text, sl + 1, sc, el + 1, ec), text, sl, sc, el, ec, True)
+    if n_runs < 1000:
+        raise LookupError("renderer evaluations: %d" % n_runs)
+    for (kind, what), desc in sorted(bad.items()):
+        if kind == "panic":
+            run.finding(U, "render-panic:" + what.split(": `")[0] + ":" + (what.split(": `")[1].rstrip("`") if ": `" in what else ""), fn.file, fn.ln,
+                        "rendering a diagnostic panics (%s) for %s: the compiler dies while printing its own message" % (what, desc))
+        else:
+            run.finding(U, "render-unknown:" + what[:80], fn.file, fn.ln, "cannot establish that rendering succeeds for %s: %s" % (desc, what))
+    if not bad:
+        run.ok(fn.site(), "input_snippet evaluated for %d (file, range) shapes: no subtraction below zero, no slice beyond a line" % n_runs)
+
+
 def rules(ctx):
     return [
         Rule("R06.a", "the parser cannot loop without consuming input, has no left recursion, and never bumps a trivia token (C23 R23.a/b/f)", 40, r06a),
         Rule("R06.b", "every todo!()/unimplemented!() reachable from main is triaged; new reachable sites are violations", 3, r06b),
         Rule("R06.d", "const evaluation sites that panic without a value only see kinds const_data can evaluate (classifier vs evaluator, belief/use)", 3, r06d),
         Rule("R06.e", "the renderer's inclusive end position never precedes the start (empty ranges)", 2, r06e),
+        Rule("R06.f", "the snippet renderer is total: no unsigned subtraction below zero and no slice beyond a line, for every range shape and column (newline position included)", 1, r06f),
         Rule("R06.c", "no assert that a named global is non-polymorphic while inference admits polymorphic functions as values", 6, r06c),
     ]
